@@ -20,12 +20,15 @@ CLAIMED['C02'] = dict(
     text="Per-operator semantics proved by Verus on the extracted code: unary_app, binary_relation, binary_arith and Value::get_as_* agree with the language's operator semantics for every operand value (checked i64 arithmetic exact or overflow error, type errors on non-matching operands, total ==, < / <= on longs and comparable extension values); Pattern::wildcard_match equals the recursive wildcard-matching spec for every pattern and text (loop invariants + lemmas, unbounded).",
     design_ref='§5 C02', technique='Verus function contracts + loop invariants on extracted code against a spec of the operator semantics',
     note="Trusted: Verus/Z3, std model; Value equality (educe-derived PartialEq) and extension Ord as uninterpreted spec functions; From conversions into Value/EvaluationError; str::chars/is_empty. Not covered yet: the expression-node evaluator (partial_interpret_internal), Set operations, parser/EST front ends ('same result however the expression arrives').")
+CLAIMED['C07'] = dict(
+    text="Operations of the extension types return the mathematically exact result or an overflow/None: Verus proves the integer kernels extracted from datetime.rs/decimal.rs (DateTime::offset, duration_since, to_date, to_time; Duration::to_*; UTCOffset::to_seconds/is_valid; checked_mul_pow) against exact integer specs for all i64 inputs; Kani proves IPAddr::is_in_range (v4, v6, mixed), is_loopback, is_multicast, is_ipv4/is_ipv6 against an interval spec of CIDR blocks for all addresses and prefix lengths with loop-free full-domain harnesses (complete, with concrete counterexamples replayed through the evaluator).",
+    design_ref='§5 C07', technique='Verus contracts on extracted integer kernels + Kani full-domain loop-free harnesses on the real crate',
+    note="Trusted: Verus/Z3, Kani/CBMC; std checked_* specs; IPAddr prefix-range invariant assumed in harnesses. Not covered: which strings the constructors accept (regex, chrono, std::net parsing, str::parse), the &[Value] wrappers with dyn Any downcasts, Display/canonical forms, equality by represented value.", engine='vx+kani')
 NOT_APPLICABLE = {
     'C03': 'strict-validation soundness relates two multi-thousand-line recursive functions over all programs x environments; no function contract within reach implies it (DESIGN §6)',
     'C04': 'in progress',
     'C05': 'parser is LALRPOP-generated tables + Display through fmt::Formatter; Verus has no str/formatter reasoning (DESIGN §6)',
     'C06': 'four large structural recursions plus serde/prost-generated code; beyond reach of function contracts here (DESIGN §6)',
-    'C07': 'in progress',
     'C08': 'in progress',
     'C09': 'two parsers, name resolution and a printer; same obstacles as C05/C06 (DESIGN §6)',
     'C10': 'serde-driven, expected-type directed JSON parsing; the round trip is not expressible as a contract on functions within reach (DESIGN §6)',
